@@ -126,6 +126,10 @@ template <typename T, typename... Ts>
 void ObjectPool<T, Ts...>::reset(unsigned workers,
            ProgressHandler* progress_watcher)
 {
+    // Clamp a local copy: the caller's value must be passed down the pool
+    // chain unchanged, otherwise an empty pool (workers = 0) prevents every
+    // lower pool from being reset (no ticks, blocks leaked).
+    const unsigned workers_for_next = workers;
     auto workers_needed = std::max(allocated_blocks.size(),
                                    fresh_blocks.size());
     if (workers_needed < workers)
@@ -176,6 +180,6 @@ void ObjectPool<T, Ts...>::reset(unsigned workers,
     allocated_blocks.clear();
     fresh_blocks.clear();
 
-    next().reset(workers, progress_watcher);
+    next().reset(workers_for_next, progress_watcher);
 }
 }   // namespace libfive
